@@ -278,7 +278,163 @@ func HarnessC04Seq(n, disable int) {
 	verifrt.Cover("end", true)
 }
 
+type verifEdge struct {
+	slot int
+	key  string
+}
+
+var verifEdgeKeys = []verifEdge{{0, "la2"}, {4999, "5if"}, {5000, "i37"}, {5460, "gue"}, {5461, "wr5"}, {8000, "42"}, {8001, "3ck"}, {10922, "bxv"}, {10923, "z26"}, {16383, "hia"}}
+
+// HarnessC04Topo: routing and handshake AFTER topology changes that were installed the production way
+// (CLUSTER NODES text -> the real updateClusterNodes -> the real ticker: pools added / removed /
+// switched between master and replica role, slot table rebuilt). The history is: steady state T0,
+// optionally a warm-up request (so that connections dialled under the OLD roles exist), then h
+// solver-chosen topology changes (fail-over, fail-back of the old master as a replica, resharding, a
+// master lost without promotion, slots taken from a live master), each followed by one request with a
+// solver-chosen command and an arbitrary two-byte key. Every request must be routed by the LATEST
+// topology: to the replica set owning the slot, by role; refused when nobody owns the slot; and the
+// connection it is written on has sent AUTH (iff password) first and READONLY before it if the node is
+// a replica in the latest topology. probes=1: every ticker run also sends the periodic topology probe to
+// a node picked by the random source (so connections opened for probing under an old role exist too).
+// anyKey=1: keys are two arbitrary bytes (slot = real CRC of arbitrary data); anyKey=0: the key is chosen
+// among keys hashing to the first and last slot of every range of every topology.
+func HarnessC04Topo(h, pw, ntopo, probes, anyKey int) {
+	var sopts []Option
+	o := core.VerifDefaultOptions()
+	if pw == 1 {
+		sopts = append(sopts, WithRedisPassword("p"))
+		o.RedisPasswd = "p"
+	}
+	ls := NewListenServer(sopts...)
+	authCmd = ""
+	ls.OnBoot(core.Engine{})
+	w := core.VerifNewWorld(ls, o)
+	w.UseFakeInfo()
+	w.AdoptOnTicker(probes == 1)
+	cur := core.VerifTopos[0]
+	if err := w.Topology(cur.Text); err != nil {
+		verifrt.Assert(false, "valid_text_accepted")
+	}
+	w.Tick()
+	w.AdoptPools()
+	c := w.NewClient("10.0.0.1:5000")
+	seen := map[*core.VerifConn]int{}
+	answered := map[*core.VerifConn]int{}
+	nsent := 0
+
+	request := func(t core.VerifTopo, warm bool) {
+		names := []string{"get", "set", "hscan"}
+		edges := verifEdgeKeys
+		if warm && anyKey == 0 {
+			// the warm-up only has to leave connections behind: a read or a write per replica set
+			names = names[:2]
+			edges = []verifEdge{verifEdgeKeys[0], verifEdgeKeys[4], verifEdgeKeys[9]}
+		}
+		name := names[verifrt.Choice("cmd", len(names))]
+		var key []byte
+		if anyKey == 1 {
+			key = verifrt.Bytes("key", 2)
+		} else {
+			// a key for each edge of every range of every topology: first and last slot of the table,
+			// both sides of every boundary that exists in some topology
+			edge := edges[verifrt.Choice("edge_slot", len(edges))]
+			key = []byte(edge.key)
+			verifrt.Assert(core.VerifSpecSlotOf(key) == edge.slot, "harness_edge_key_has_its_slot")
+		}
+		args := [][]byte{[]byte(name), key}
+		if name != "get" {
+			args = append(args, []byte("0"))
+		}
+		req := core.VerifEncode(args...)
+		before := len(w.Sent(c))
+		w.Feed(c, req)
+		w.RunTasks()
+		nsent++
+		slot := core.VerifSpecSlotOf(key)
+		verifrt.ObserveInt("slot", slot)
+		master := ""
+		for m, rng := range t.Masters {
+			if slot >= rng[0] && slot <= rng[1] {
+				master = m
+			}
+		}
+		out := w.Sent(c)[before:]
+		if master == "" {
+			verifrt.Assert(string(out) == "-ERR unknown slot\r\n", "unowned_slot_answered_with_error")
+			for _, s := range w.SortedServers() {
+				verifrt.Assert(len(w.Sent(s)) == seen[s], "unowned_slot_nothing_forwarded")
+			}
+			return
+		}
+		verifrt.Assert(len(out) == 0, "forwarded_not_answered_locally")
+		var target *core.VerifConn
+		for _, s := range w.SortedServers() {
+			got := w.Sent(s)
+			if len(got) > seen[s] {
+				verifrt.Assert(target == nil, "forwarded_to_exactly_one_connection")
+				target = s
+				seen[s] = len(got)
+			}
+		}
+		verifrt.Assert(target != nil, "request_forwarded")
+		verifrt.ObserveStr("target", target.Addr)
+		defer func() {
+			// the node answers everything it has received on this connection (handshake, probe, request),
+			// so the client's queue is empty again before the next step
+			_, cmds := core.VerifRedisParse(w.Sent(target))
+			var rsp []byte
+			for _, cmd := range cmds[answered[target]:] {
+				if string(cmd[0]) == "cluster" {
+					rsp = append(rsp, "$4\r\nnope\r\n"...)
+				} else {
+					rsp = append(rsp, "+OK\r\n"...)
+				}
+			}
+			answered[target] = len(cmds)
+			w.Feed(target, rsp)
+			verifrt.Assert(string(w.Sent(c)[before:]) == "+OK\r\n", "backend_reply_reaches_the_client")
+		}()
+		isMaster := target.Addr == master
+		isSlave := t.Slaves[target.Addr] == master
+		verifrt.Assert(isMaster || isSlave, "routed_to_the_replica_set_owning_the_slot_in_the_latest_topology")
+		if name != "get" {
+			verifrt.Assert(isMaster, "writes_and_scans_go_to_the_master_of_the_latest_topology")
+		}
+		verifrt.Assert(target.Opened(), "request_written_on_an_open_connection")
+		// what this connection has carried so far: [AUTH] [READONLY] requests...
+		_, cmds := core.VerifRedisParse(w.Sent(target))
+		verifrt.Assert(len(cmds) >= 1 && verifBytesEq(core.VerifEncode(cmds[len(cmds)-1]...), req), "request_bytes_unchanged_and_last_on_the_connection")
+		i := 0
+		if pw == 1 {
+			verifrt.Assert(len(cmds) > 1 && len(cmds[0]) == 2 && string(cmds[0][0]) == "auth" && string(cmds[0][1]) == "p", "AUTH_first_on_the_connection")
+			i = 1
+		}
+		if isSlave {
+			verifrt.Assert(len(cmds) > i+1 && len(cmds[i]) == 1 && string(cmds[i][0]) == "READONLY", "READONLY_before_the_first_request_on_a_replica_connection")
+		}
+	}
+
+	if verifrt.Choice("warm_up_request", 2) == 1 {
+		request(cur, true)
+	}
+	for step := 0; step < h; step++ {
+		cur = core.VerifTopos[1+verifrt.Choice("topology", ntopo-1)]
+		if err := w.Topology(cur.Text); err != nil {
+			verifrt.Assert(false, "valid_text_accepted")
+		}
+		verifrt.Sleep(1100) // the ticker runs at most once a second
+		w.Tick()
+		w.AdoptPools()
+		for _, s := range w.SortedServers() {
+			seen[s] = len(w.Sent(s)) // a handshake of a connection opened by the ticker itself
+		}
+		request(cur, false)
+	}
+	verifrt.Cover("end", true)
+}
+
 func init() {
+	verifrt.Register("HarnessC04Topo", func(p []int64) { HarnessC04Topo(int(p[0]), int(p[1]), int(p[2]), int(p[3]), int(p[4])) })
 	verifrt.Register("HarnessC04Seq", func(p []int64) { HarnessC04Seq(int(p[0]), int(p[1])) })
 	verifrt.Register("HarnessC04", func(p []int64) { HarnessC04(int(p[0]), int(p[1]), int(p[2])) })
 	verifrt.Register("HarnessC20", func(p []int64) { HarnessC20(int(p[0]), int(p[1])) })
